@@ -8,7 +8,7 @@ From GV Require Import Base.Str Gen.FlattenGen Model.Flatten Proofs.Flatten.
    both templates offer exactly these parameters in this order *)
 Theorem C05_params_in_declared_order : forall sch input cross sigs m,
   fields_mapping sch input cross sigs = Some m ->
-  (forall v pp inf, b_params (emit v m cross pp inf) = map (fun kf => r_name (snd kf)) m) /\
+  (forall v pp, b_params (emit v m cross pp) = map (fun kf => r_name (snd kf)) m) /\
   (exists items,
      items = flat_map (item_list sch input cross) (filter (fun p => negb (is_empty p)) (all_pieces sigs)) /\
      map fst m = dedup_first [] (map fst items) /\
@@ -29,37 +29,44 @@ Theorem C05_mapping_fields_wf : forall sch input cross sigs m,
 Proof. exact fields_mapping_wf. Qed.
 Print Assumptions C05_mapping_fields_wf.
 
-(* a request (dict or message) together with any flattened argument: ValueError, nothing is sent;
-   sync and asyncio, same-package and cross-package *)
-Theorem C05_mixed_raises_before_send : forall v m cross pp inf ra kw,
+(* a cross-package mapping holds primitive fields only, hence no maps: the hypothesis of the two theorems below
+   about the asyncio cross-package block holds of every mapping the generator computes *)
+Theorem C05_cross_mapping_no_maps : forall sch input sigs m,
+  fields_mapping sch input true sigs = Some m -> no_maps m /\ (forall kf, In kf m -> r_primitive (snd kf) = true).
+Proof. exact fields_mapping_cross_no_maps. Qed.
+Print Assumptions C05_cross_mapping_no_maps.
+
+(* a request (dict or message) together with any flattened argument, whatever its value (0, "", False, an empty message
+   included: only None counts as absent): ValueError, nothing is sent; sync and asyncio, same-package and cross-package *)
+Theorem C05_mixed_raises_before_send : forall v m cross pp ra kw,
   ra <> RNone -> (exists p, In p (names m) /\ passed kw p = true) ->
-  exec (emit v m cross pp inf) ra kw = ORaiseValue.
+  exec (emit v m cross pp) ra kw = ORaiseValue.
 Proof. exact mixed_raises_before_send. Qed.
 Print Assumptions C05_mixed_raises_before_send.
 
-Theorem C05_no_fields_no_guard : forall v cross pp inf,
-  b_guard (emit v [] cross pp inf) = None /\ b_params (emit v [] cross pp inf) = [].
+Theorem C05_no_fields_no_guard : forall v cross pp,
+  b_guard (emit v [] cross pp) = None /\ b_params (emit v [] cross pp) = [].
 Proof. exact no_fields_no_guard. Qed.
 Print Assumptions C05_no_fields_no_guard.
 
 (* the kwargs call sends the message with those fields set; so does passing that message (one corner spelled out:
    a cross-package proto-plus request whose set fields all hold false values is replaced by a new empty message) *)
-Theorem C05_flattened_equiv : forall v m cross pp inf kw,
+Theorem C05_flattened_equiv : forall v m cross pp kw,
   NoDup (map fst m) -> fm_wf m -> kw_wf m kw -> no_empty_dotted m kw ->
-  (v = Async -> cross = true -> ctor_ok m inf) ->
+  (v = Async -> cross = true -> no_maps m) ->
   exists r1 r2,
-    exec (emit v m cross pp inf) RNone kw = OSend r1 /\
-    exec (emit v m cross pp inf) (RMsg (request_of m kw)) [] = OSend r2 /\
+    exec (emit v m cross pp) RNone kw = OSend r1 /\
+    exec (emit v m cross pp) (RMsg (request_of m kw)) [] = OSend r2 /\
     req_equiv r1 (request_of m kw) /\
     (r2 = request_of m kw \/
      (cross = true /\ msg_falsy pp (request_of m kw) = true /\ r2 = empty_req)).
 Proof. exact flattened_equiv. Qed.
 Print Assumptions C05_flattened_equiv.
 
-Theorem C05_sync_async_agree : forall m cross pp inf ra kw,
+Theorem C05_sync_async_agree : forall m cross pp ra kw,
   NoDup (map fst m) -> fm_wf m -> kw_wf m kw -> no_empty_dotted m kw ->
-  (cross = true -> ctor_ok m inf) ->
-  outcome_equiv (exec (emit Sync m cross pp inf) ra kw) (exec (emit Async m cross pp inf) ra kw).
+  (cross = true -> no_maps m) ->
+  outcome_equiv (exec (emit Sync m cross pp) ra kw) (exec (emit Async m cross pp) ra kw).
 Proof. exact sync_async_agree. Qed.
 Print Assumptions C05_sync_async_agree.
 
@@ -67,22 +74,27 @@ Print Assumptions C05_sync_async_agree.
 Theorem C05_example_same_package :
   fields_mapping ex_sch ex_req false ex_sigs2 = Some ex_m2 /\
   NoDup (map fst ex_m2) /\ fm_wf ex_m2 /\ kw_wf ex_m2 ex_kw /\ no_empty_dotted ex_m2 ex_kw /\
-  block_ok (emit Sync ex_m2 false true (ctor_fields ex_req)) = true /\
-  block_ok (emit Async ex_m2 false true (ctor_fields ex_req)) = true /\
-  (exists r, exec (emit Sync ex_m2 false true (ctor_fields ex_req)) RNone ex_kw = OSend r /\
+  block_ok (emit Sync ex_m2 false true) = true /\
+  block_ok (emit Async ex_m2 false true) = true /\
+  (exists r, exec (emit Sync ex_m2 false true) RNone ex_kw = OSend r /\
              lookup "book.title" r = Some (LS "st") /\ lookup "class_" r = None /\ vivified "book" r = true /\
              lookup "values" r = Some (LL ["mGgF2"])) /\
-  exec (emit Async ex_m2 false true (ctor_fields ex_req)) (RMsg empty_req) ex_kw = ORaiseValue.
+  exec (emit Async ex_m2 false true) (RMsg empty_req) ex_kw = ORaiseValue.
 Proof. exact ex_hypotheses. Qed.
 Print Assumptions C05_example_same_package.
 
+(* the former witnesses of the three defects repaired in /repo (two repeated fields of a cross-package request,
+   dotted path in the asyncio cross-package block, reserved field name of a plain protobuf request) in one mapping *)
 Theorem C05_example_cross_package :
-  let m := cm ["name, tags"; "sub"] in
-  fields_mapping ex_csch ex_common true ["name, tags"; "sub"] = Some m /\
-  map fst m = ["name"; "tags"] /\ NoDup (map fst m) /\ fm_wf m /\ ctor_ok m (ctor_fields ex_common) /\
-  block_ok (emit Sync m true false (ctor_fields ex_common)) = true /\
-  exec (emit Sync m true false (ctor_fields ex_common)) RNone [("tags", LL ["=sa"])] = OSend (mkReq [("tags", LL ["=sa"])] []) /\
-  exec (emit Async m true false (ctor_fields ex_common)) RNone [("tags", LL ["=sa"])] = OSend (mkReq [("tags", LL ["=sa"])] []).
+  let m := cm ex_csigs in
+  fields_mapping ex_csch ex_common true ex_csigs = Some m /\
+  map fst m = ["name"; "tags"; "sub.text"; "nums"; "type"] /\ names m = ["name"; "tags"; "text"; "nums"; "type"] /\
+  NoDup (map fst m) /\ fm_wf m /\ no_maps m /\
+  block_ok (emit Sync m true false) = true /\ block_ok (emit Async m true false) = true /\
+  exec (emit Sync m true false) RNone ex_ckw = OSend (mkReq [("tags", LL ["=sa"]); ("sub.text", LS "sx")] ["sub"]) /\
+  exec (emit Async m true false) RNone ex_ckw = OSend (mkReq [("tags", LL ["=sa"]); ("sub.text", LS "sx")] ["sub"]) /\
+  exec (emit Async m true false) RNone [] = OSend empty_req /\
+  exec (emit Async m true false) (RDict empty_req) [("text", LS "")] = ORaiseValue.
 Proof. exact ex_cross_hypotheses. Qed.
 Print Assumptions C05_example_cross_package.
 
@@ -90,76 +102,63 @@ Theorem C05_example_order :
   fields_mapping ex_sch ex_req false ex_sigs = Some ex_m /\
   map fst ex_m = ["name"; "class_"; "book.title"; "names"; "labels"; "values"; "book.class_"] /\
   names ex_m = ["name"; "class_"; "title"; "names"; "labels"; "values"; "class_"] /\
-  block_ok (emit Sync ex_m false true (ctor_fields ex_req)) = false.
+  block_ok (emit Sync ex_m false true) = false.
 Proof. exact ex_mapping. Qed.
 Print Assumptions C05_example_order.
 
-(* ---- statements the faithful model violates (each witness is replayed on the implementation) ---- *)
-Theorem C05_cross_two_repeated_refuted :
-  exists m, fields_mapping ex_csch ex_common true ["name,tags,nums"] = Some m /\
-            sig_ok (emit Sync m true false (ctor_fields ex_common)) = true /\
-            keys_ok (emit Sync m true false (ctor_fields ex_common)) = true /\
-            block_ok (emit Sync m true false (ctor_fields ex_common)) = false.
-Proof. exact indent_refuted. Qed.
-Print Assumptions C05_cross_two_repeated_refuted.
+(* falsy values are values: with a request they raise, alone they reach the request (presence), in both clients *)
+Theorem C05_example_falsy_values_count :
+  let input := mkMsg true [scalar "parent"; mkField "page_size" TScalar false false false true; msgf "filter" ".p.Inner"; scalar "flag"] in
+  exists m, fields_mapping ex_sch input false ["parent,page_size,filter,flag"] = Some m /\
+    (forall v p, In p ["parent"; "page_size"; "filter"; "flag"] ->
+       exec (emit v m false true) (RMsg empty_req) [(p, if String.eqb p "filter" then LM "" else LS "")] = ORaiseValue /\
+       exec (emit v m false true) (RDict empty_req) [(p, if String.eqb p "filter" then LM "" else LS "")] = ORaiseValue) /\
+    (forall v, exec (emit v m false true) RNone [("page_size", LS ""); ("filter", LM ""); ("parent", LS ""); ("flag", LS "")]
+               = OSend (mkReq [("filter", LM ""); ("page_size", LS "")] [])).
+Proof. exact falsy_values_count. Qed.
+Print Assumptions C05_example_falsy_values_count.
 
-Theorem C05_sync_async_agree_cross_dotted_refuted :
-  exists m, fields_mapping ex_csch (mkMsg false [scalar "name"; msgf "sub" ".c.Sub"]) true ["name,sub.text"] = Some m /\
-    let inf := ["name"; "sub"] in
-    exec (emit Sync m true false inf) RNone [] = OSend empty_req /\
-    exec (emit Async m true false inf) RNone [] = ORaiseCtor /\
-    exec (emit Async m true false inf) (RDict empty_req) [] = OSend empty_req.
-Proof. exact async_cross_dotted_refuted. Qed.
-Print Assumptions C05_sync_async_agree_cross_dotted_refuted.
-
-Theorem C05_flattened_equiv_cross_dotted_wrong_field_refuted :
-  exists m, fields_mapping ex_csch ex_common true ["sub.text"] = Some m /\
-    let inf := ctor_fields ex_common in
-    (exists r, exec (emit Sync m true false inf) RNone [("text", LS "sx")] = OSend r /\ lookup "sub.text" r = Some (LS "sx") /\ lookup "text" r = None) /\
-    (exists r, exec (emit Async m true false inf) RNone [("text", LS "sx")] = OSend r /\ lookup "sub.text" r = None /\ lookup "text" r = Some (LS "sx")).
-Proof. exact async_cross_dotted_wrong_field_refuted. Qed.
-Print Assumptions C05_flattened_equiv_cross_dotted_wrong_field_refuted.
-
+(* ---- statements the faithful model violates (each witness is replayed on the implementation: corpus/C05) ---- *)
 Theorem C05_reserved_segment_refuted :
   exists m, fields_mapping ex_sch (mkMsg true [msgf "class" ".p.Inner"]) false ["class.title"] = Some m /\
-            map fst m = ["class.title"] /\ keys_ok (emit Sync m false true ["class_"]) = false /\ keys_ok (emit Async m false true ["class_"]) = false.
+            map fst m = ["class.title"] /\ keys_ok (emit Sync m false true) = false /\ keys_ok (emit Async m false true) = false.
 Proof. exact reserved_segment_refuted. Qed.
 Print Assumptions C05_reserved_segment_refuted.
 
 Theorem C05_control_name_refuted :
   exists m, fields_mapping ex_sch ex_req false ["name,retry"] = Some m /\
-            sig_ok (emit Sync m false true (ctor_fields ex_req)) = false /\ sig_ok (emit Async m false true (ctor_fields ex_req)) = false.
+            sig_ok (emit Sync m false true) = false /\ sig_ok (emit Async m false true) = false.
 Proof. exact control_name_refuted. Qed.
 Print Assumptions C05_control_name_refuted.
 
 Theorem C05_duplicate_param_refuted :
   exists m, fields_mapping ex_sch ex_req false ["book.title,other.title"] = Some m /\
-            NoDup (map fst m) /\ sig_ok (emit Sync m false true (ctor_fields ex_req)) = false.
+            NoDup (map fst m) /\ sig_ok (emit Sync m false true) = false.
 Proof. exact duplicate_param_refuted. Qed.
 Print Assumptions C05_duplicate_param_refuted.
 
+Theorem C05_keyword_param_pb2_refuted :
+  let input := mkMsg false [scalar "name"; scalar "class"] in
+  exists m, fields_mapping [] input true ["name,class"] = Some m /\ names m = ["name"; "class"] /\
+            sig_ok (emit Sync m true false) = false /\ sig_ok (emit Async m true false) = false.
+Proof. exact keyword_param_pb2_refuted. Qed.
+Print Assumptions C05_keyword_param_pb2_refuted.
+
 Theorem C05_sync_async_agree_empty_container_dotted_refuted :
   exists m, fields_mapping ex_sch ex_req false ["name,book.tags"] = Some m /\
-    let inf := ctor_fields ex_req in
     let kw := [("tags", LL [])] in
-    (exists r1 r2, exec (emit Sync m false true inf) RNone kw = OSend r1 /\ exec (emit Async m false true inf) RNone kw = OSend r2 /\
+    (exists r1 r2, exec (emit Sync m false true) RNone kw = OSend r1 /\ exec (emit Async m false true) RNone kw = OSend r2 /\
                    vivified "book" r1 = true /\ vivified "book" r2 = false /\ vivified "book" (request_of m kw) = true).
 Proof. exact empty_container_dotted_refuted. Qed.
 Print Assumptions C05_sync_async_agree_empty_container_dotted_refuted.
 
-Theorem C05_reserved_in_pb2_request_refuted :
-  let input := mkMsg false [scalar "name"; scalar "type"] in
-  fields_mapping [] input true ["name"] <> None /\ fields_mapping [] input true ["name,type"] = None /\
-  fields_mapping [] (mkMsg true [scalar "name"; scalar "type"]) false ["name,type"] <> None.
-Proof. exact reserved_in_pb2_request_refuted. Qed.
-Print Assumptions C05_reserved_in_pb2_request_refuted.
-
 Theorem C05_flattened_equiv_falsy_request_refuted :
   let input := mkMsg true [mkField "level" TScalar false false false true] in
   exists m, fields_mapping [] input true ["level"] = Some m /\
-    exec (emit Sync m true true ["level"]) RNone [("level", LS "")] = OSend (mkReq [("level", LS "")] []) /\
+    exec (emit Sync m true true) RNone [("level", LS "")] = OSend (mkReq [("level", LS "")] []) /\
+    exec (emit Async m true true) RNone [("level", LS "")] = OSend (mkReq [("level", LS "")] []) /\
     request_of m [("level", LS "")] = mkReq [("level", LS "")] [] /\
-    exec (emit Sync m true true ["level"]) (RMsg (mkReq [("level", LS "")] [])) [] = OSend empty_req /\
-    exec (emit Async m true true ["level"]) (RMsg (mkReq [("level", LS "")] [])) [] = OSend empty_req.
+    exec (emit Sync m true true) (RMsg (mkReq [("level", LS "")] [])) [] = OSend empty_req /\
+    exec (emit Async m true true) (RMsg (mkReq [("level", LS "")] [])) [] = OSend empty_req.
 Proof. exact falsy_request_refuted. Qed.
 Print Assumptions C05_flattened_equiv_falsy_request_refuted.
